@@ -1,36 +1,34 @@
 SPEC = dict(
     id="C14",
     level_text=(
-        "The property is FALSE of the current source: the search harness (real fiber routes POST /api/v1/query, /query/arrow, "
-        "/query/estimate, GET /query/:measurement, GET /measurements, SHOW; real ValidateSQLRequest + header rules + "
-        "checkQueryPermissions with a recording RBAC checker granting exactly ONE database + getTransformedSQL[ForParallel] + the real "
-        "sandboxed DuckDB over a temp storage root with canary rows in the unauthorised databases) reads canaries / unchecked files in 13 classes (17 monitor keys, known/C14.jsonl): "
-        "backslash before a closing quote, E'..\\\\', quote inside a line / block comment, comment marker inside a quoted identifier "
-        "(ioDenylistNormalise strips the quotes), placeholder look-alike '__STR_1__' (first-occurrence unmask), non-ASCII blank between a "
-        "reader name and '(' (DuckDB blank, not \\s), query('<sql in a string>') and parquet_full_metadata missing from the denylist, header + digit-glued FROM on the single-table fast path, header + CTE-name exclusion "
-        "gated by the substring 'with ' on the rewrite side only (WITH<LF>x, named WINDOW read as a CTE), a subquery in the `where` "
-        "parameter of GET /query/:measurement (checkQueryPermissions never runs there), and the lower-cased de-duplication key "
-        "(CPU vs cpu). PROVED in Lean 4 instead, compositionally: (C) C14_rewrite_subset_checked / _hdr - for an ABSTRACT regex matcher "
-        "(findAll a parameter, i.e. every regex semantics), abstract normaliser, splice and case folding, every (database, measurement) "
-        "the rewrite turns into a read_parquet path is a permission-checked pair (same database; measurement equal up to the case the "
-        "`seen` key folds) or the inert sentinel, with both functions modelled as maps/filters over the match lists exactly as the code "
-        "structures them (resolve vs validated resolve, `seen` keys as concatenated strings, CTE exclusion, header substitution, "
-        "read_parquet / no-from-no-join short-circuit, sequential passes over spliced text, pre-passes, `with ` gate, fast path); the "
-        "side conditions the abstract argument needs are explicit hypotheses (StableNoHdr / StableHdr: a later pass finds only "
-        "references the same pattern finds in the original text and the two look-aheads agree; captures contain no '.'; pre-passes "
-        "idle; fast path not taken), and every place where the real code violates one of them has a witness theorem "
-        "(C14_lookahead_witness, C14_header_cte_gate_witness, C14_window_alias_witness, C14_fastpath_witness, C14_casefold_witness, "
-        "C14_measurement_endpoint_witness), the last four on the REAL regex semantics / regenerated call lists. (B) C14_validated, "
-        "C14_denylist_complete over DuckDB token lists with the denylist names regenerated from the source (any case, bare or quoted, "
-        "any position). (D) DuckDB's read set and (A) lexical agreement validator/DuckDB on the decidable class inK are HYPOTHESES of "
-        "C14_partial (composition), never axioms; lexical witnesses outside K (C14_backslash_quote_witness, _quote_in_comment_, "
-        "_estring_, _marker_in_ident_, _placeholder_) are evaluated on the byte-level transcription of the real masker / stripper / "
-        "validator / extractor, which is diffed line by line against the real code on every generated statement (decision of "
-        "ValidateSQLRequest + validateHeaderDatabase + hasCrossDatabaseSyntax, and the exact list of pairs the real "
-        "checkQueryPermissions hands to the RBAC checker during the HTTP request). NOT diffed against Lean: the rewritten text / "
-        "rewritten pair set (monitored against the checked set instead), SHOW / listing endpoints (decision tables in the harness only)."
+        "After the round-2 repairs (/repo 12df811, 02701ef..64dff5c) the search harness is silent on HEAD: real fiber routes POST "
+        "/api/v1/query, /query/arrow, /query/estimate, GET /query/:measurement, GET /measurements, SHOW; real ValidateSQLRequest + "
+        "header rules + checkQueryPermissions with a recording RBAC checker granting exactly ONE database + "
+        "getTransformedSQL[ForParallel] + the real sandboxed DuckDB over a temp storage root with canary rows in the unauthorised "
+        "databases; 27 generator families incl. every dollar tag of length <= 3, every table function of the linked DuckDB, quoted "
+        "skip-prefix names, placeholder look-alikes, the two-principal transform-cache scenario. All 20 formerly confirmed bypass "
+        "classes (known_findings.jsonl status fixed) keep their monitors armed. PROVED in Lean 4, compositionally: (C) "
+        "C14_rewrite_subset_checked / _hdr - for an ABSTRACT regex matcher (findAll a parameter, i.e. every regex semantics), abstract "
+        "normaliser, splice and case folding, every (database, measurement) the rewrite turns into a read_parquet path IS one of the "
+        "permission-checked pairs (plain membership since the case-exact seen key) or the inert sentinel, both functions modelled as "
+        "maps/filters over the match lists exactly as the code structures them (raw vs validated resolve, seen keys as concatenated "
+        "strings, CTE exclusion, header substitution, short-circuits, sequential passes over spliced text, pre-passes, fast path); "
+        "side conditions that are facts about regex semantics stay explicit hypotheses (StableNoHdr / StableHdr: a later pass finds "
+        "only references the same pattern finds in the original text and the two look-aheads agree; captures contain no '.'; "
+        "pre-passes idle; FastAgrees for the guarded fast path). The one remaining code-level difference (isFunctionCallAt vs "
+        "isDotOrCallAt blank sets) has C14_lookahead_witness and is a near-miss only (DuckDB's parser rejects it). (B) C14_validated, "
+        "C14_denylist_complete over DuckDB token lists with the regenerated denylist. (R) C14_repairs_in_place: the structural fact of "
+        "every repair regenerated from the source; historical witnesses are theorems about the OLD parameter value "
+        "(C14_header_cte_gate_fixed, C14_fastpath_fixed, C14_casefold_fixed, C14_cache_key_prefix_collision_witness) or _fixed "
+        "evaluations of the byte-level transcription (C14_lexical_bypasses_fixed, C14_dollar_tag_masked, C14_denylist_gap_closed); "
+        "C14_cache_key_injective. (D) DuckDB's read set and (A) lexical agreement validator/DuckDB on the decidable class inK (now "
+        "only: no nested/unterminated block comment, no identifier + line break + '(', no pre-pass trigger word) are HYPOTHESES of "
+        "C14_partial, never axioms. The byte-level transcription of masker / stripper / validator / extractor is diffed line by line "
+        "against the real code on every generated ASCII statement (decision of ValidateSQLRequest + validateHeaderDatabase + "
+        "hasCrossDatabaseSyntax and the exact list of pairs the real checkQueryPermissions hands to the RBAC checker). NOT diffed "
+        "against Lean: the rewritten text (monitored against the checked set), the unmask steps, SHOW / listing endpoints."
     ),
-    level_note="proof (partial, compositional; property false: 17 monitor keys on the unchanged tree; DuckDB read-set and lexer agreement are hypotheses)",
+    level_note="proof (partial, compositional: DuckDB read-set, lexer agreement on inK and regex-semantic side conditions are hypotheses); no open finding on HEAD",
     technique="Lean 4: abstract-matcher refinement proof (maps/filters over match lists, de-duplication key injectivity), token-level validation theorems over a regenerated denylist, byte-level executable transcription of mask/strip/validate/extract with hand-compiled RE2 matchers diffed against the real code; search harness executing every accepted statement on the real query path against a sandboxed DuckDB with canary data and DuckDB's own parse tree (json_serialize_sql) as read-set oracle",
     factgen=True,
     hooks={"internal/api": "go/hooks/c14_api"},
